@@ -101,3 +101,48 @@ Fixpoint ofold {A B} (f : B -> A -> option B) (xs : list A) (acc : B) : option B
   | [] => Some acc
   | x :: r => match f acc x with None => None | Some acc1 => ofold f r acc1 end
   end.
+
+(** ** dicts with insertion order: association lists with unique keys *)
+Definition pydict (K V : Type) : Type := list (K * V).
+
+(** [d[k]]; None = KeyError *)
+Fixpoint dict_get {K V} (eqb : K -> K -> bool) (k : K) (d : list (K * V)) : option V :=
+  match d with
+  | [] => None
+  | (k', v) :: r => if eqb k k' then Some v else dict_get eqb k r
+  end.
+
+Definition dict_mem {K V} (eqb : K -> K -> bool) (k : K) (d : list (K * V)) : bool :=
+  match dict_get eqb k d with Some _ => true | None => false end.
+
+(** [d[k] = v]: in place when the key is present, else appended *)
+Fixpoint dict_set {K V} (eqb : K -> K -> bool) (k : K) (v : V) (d : list (K * V)) : list (K * V) :=
+  match d with
+  | [] => [(k, v)]
+  | (k', v') :: r => if eqb k k' then (k', v) :: r else (k', v') :: dict_set eqb k v r
+  end.
+
+(** [d.get(k, default)] *)
+Definition dict_get_or {K V} (eqb : K -> K -> bool) (k : K) (d : list (K * V)) (default : V) : V :=
+  match dict_get eqb k d with Some v => v | None => default end.
+
+(** [enumerate(xs)] *)
+Fixpoint py_enumerate_from {A} (i : Z) (xs : list A) : list (Z * A) :=
+  match xs with
+  | [] => []
+  | x :: r => (i, x) :: py_enumerate_from (i + 1)%Z r
+  end.
+Definition py_enumerate {A} (xs : list A) : list (Z * A) := py_enumerate_from 0%Z xs.
+
+(** [==] on pairs *)
+Definition pair_eqb {A B} (ea : A -> A -> bool) (eb : B -> B -> bool) (x y : A * B) : bool :=
+  ea (fst x) (fst y) && eb (snd x) (snd y).
+
+(** a set display [{*a, *b, x}]: the first occurrence of each element is kept (another
+    representation of the same set than [set_of_list]; both are duplicate-free lists) *)
+Fixpoint set_display_acc {A} (eqb : A -> A -> bool) (seen l : list A) : list A :=
+  match l with
+  | [] => []
+  | x :: t => if py_in eqb x seen then set_display_acc eqb seen t else x :: set_display_acc eqb (x :: seen) t
+  end.
+Definition set_display {A} (eqb : A -> A -> bool) (l : list A) : list A := set_display_acc eqb [] l.
